@@ -23,8 +23,6 @@ def parseTok (s : String) : Option Tok :=
 def parseToks (s : String) : Option (List Tok) :=
   sequenceOpt (((s.splitOn " ").filter (· ≠ "")).map parseTok)
 
-def located (ts : List Tok) : List PTok := ts.map (⟨·, true⟩)
-
 def parseLine (s : String) : Option Line :=
   let s := s.trimAscii.toString
   let (k, rest) := match s.splitOn " " with
@@ -48,12 +46,23 @@ def parseFile (s : String) : Option (String × List Line) :=
       | [] => ""
     (sequenceOpt (ls.map parseLine)).map (fun l => (name, l))
 
-def parseApi (s : String) : Option (List (String × List Tok)) :=
+/-- an API entry is `NAME value-tokens`, or `name-tokens := value-tokens` when the name is not one identifier -/
+def parseApi (s : String) : Option (List ApiDefine) :=
   if s == "-" then some []
   else sequenceOpt ((s.splitOn "|").map fun e =>
-    match (e.trimAscii.toString.splitOn " ").filter (· ≠ "") with
-    | [] => none
-    | n :: v => (sequenceOpt (v.map parseTok)).map (fun t => (n, t)))
+    let ws := (e.trimAscii.toString.splitOn " ").filter (· ≠ "")
+    match ws.span (· ≠ ":=") with
+    | (n, _ :: v) =>
+      match sequenceOpt (n.map parseTok), sequenceOpt (v.map parseTok) with
+      | some n, some v => some ⟨n, v⟩
+      | _, _ => none
+    | (_, []) =>
+      match ws with
+      | [] => none
+      | n :: v =>
+        match parseTok n, sequenceOpt (v.map parseTok) with
+        | some n, some v => some ⟨[n], v⟩
+        | _, _ => none)
 
 def handlerOf (files : List (String × List Line)) : Handler :=
   fun n => (files.find? (·.1 == n)).map (·.2)
@@ -85,7 +94,7 @@ def showErr : Err → String
   | .unsupported w => "unsupported " ++ w
   | .includeFuel => "unsupported include depth"
 
-def run (api : List (String × List Tok)) (files : List (String × List Line)) : String :=
+def run (api : List ApiDefine) (files : List (String × List Line)) : String :=
   match files with
   | [] => "bad-request"
   | (entry, _) :: _ =>
@@ -102,6 +111,7 @@ def handle (op : String) (args : List String) : String :=
     match parseApi api, sequenceOpt (files.map parseFile) with
     | some api, some files => run api files
     | _, _ => "bad-request"
+  | "C12.limit", _ => "unsupported (resource test on the real code only)"
   | _, _ => "unsupported-op"
 
 end RsslVerif.Driver.C12
